@@ -1013,6 +1013,22 @@ class SignalManager(QMI_MessageHandler):
             # Ignore errors during reply delivery.
             pass
 
+        if request_message.subscribe and success and self._context.get_rpc_object_descriptor(publisher_name) is None:
+            # The publisher was removed while we were replying. The removal notice sent by
+            # handle_object_removed() may have overtaken our reply, in which case the subscriber
+            # would keep a subscription nobody serves. Drop the subscriber and repeat the notice
+            # after the reply (it is idempotent at the receiving end).
+            self._remove_remote_subscriber(publisher_name, signal_name, subscriber_context)
+            removed_message = QMI_SignalRemovedMessage(
+                source_address=request_message.destination_address,
+                destination_address=request_message.source_address,
+                publisher_name=publisher_name,
+                signal_name=signal_name)
+            try:
+                self._context.send_message(removed_message)
+            except QMI_MessageDeliveryException:
+                pass
+
     def _handle_subscription_reply(self, request_id: str, success: bool, error_msg: str) -> None:
         """Called when we receive a reply to a pending subscribe/unsubscribe request.
 
